@@ -557,6 +557,9 @@ func (e *Engine) stdStub(full string, c *ast.CallExpr, recv *Value, args []Value
 			e.assume(st.pc, implies(res[0].T, e.le(need, l1)))
 		}
 		return res, true
+	case "slices.Contains", "slices.Index":
+		note(full + ": deterministic function of the slice contents and the value (no heap effect)")
+		return e.pureUF(full, sig, recv, args, st), true
 	case "strings.ToLower", "strings.ToUpper", "strings.TrimSpace", "strings.Trim", "strings.TrimLeft", "strings.TrimRight", "strings.TrimPrefix", "strings.TrimSuffix", "bytes.TrimSpace":
 		res := e.pureUF(full, sig, recv, args, st)
 		if strings.Contains(full, "Trim") {
